@@ -632,23 +632,23 @@ private theorem rename_holder (x y : String) :
           Ne.symm this]
     simp [stmtRename, ho, hty]
 
-/-- `RENAME x TO y` (one pair) never raises: the self‑loop the relabelling creates out of the RENAME edge is there -/
+/-- D10 repaired: a statement step never raises — for DROP, for RENAME with ANY number of pairs in ANY enumeration order,
+    and for read/write statements.  (Before the repair a multi‑pair RENAME could end in `NetworkXError`.) -/
+theorem foldStep_total (ord : List (Node × Node) → List (Node × Node)) (g h : LGraph) :
+    ∃ g', foldStep ord g h = .ok g' := by
+  unfold foldStep
+  simp only
+  split
+  · exact ⟨_, rfl⟩
+  · split <;> exact ⟨_, rfl⟩
+
+/-- `RENAME x TO y` (one pair) never raises -/
 theorem rename_single_pair_total (g : LGraph) (x y : String) :
-    ∃ g', foldStep id g (holderOf (.rename [(x, y)])) = .ok g' := by
-  obtain ⟨he, hn, hd, hr⟩ := rename_holder x y
-  have hmem : (tn x, tn y) ∈ (g.compose (holderOf (.rename [(x, y)]))).edgesOrdered :=
-    (mem_edgesOrdered_iff _ _).mpr ⟨(mem_edges_compose _ _ _).mpr (Or.inr he), (mem_nodes_compose _ _ _).mpr (Or.inr hn)⟩
-  have hloop : (tn y, tn y) ∈ ((g.compose (holderOf (.rename [(x, y)]))).relabel (tn x) (tn y)).edges := by
-    rw [mem_edges_relabel]
-    refine ⟨tn x, tn y, hmem, ?_⟩
-    simp only [rmap, if_true, Prod.mk.injEq, true_and]
-    split <;> rfl
-  have hs := (removeEdge_isSome _ (tn y) (tn y)).mpr hloop
-  simp only [foldStep, hd, hr, List.isEmpty_nil, Bool.not_true, List.isEmpty_cons, Bool.not_false, if_true, id,
-    renameStep, renameOne, Bool.false_eq_true, if_false]
-  cases hre : (((g.compose (holderOf (.rename [(x, y)]))).relabel (tn x) (tn y)).removeEdge? (tn y) (tn y)) with
-  | none => rw [hre] at hs; simp at hs
-  | some g2 => exact ⟨_, rfl⟩
+    ∃ g', foldStep id g (holderOf (.rename [(x, y)])) = .ok g' := foldStep_total id g _
+
+/-- every RENAME statement, whatever its pairs, is total -/
+theorem rename_total (ord : List (Node × Node) → List (Node × Node)) (g : LGraph) (ps : List (String × String)) :
+    ∃ g', foldStep ord g (holderOf (.rename ps)) = .ok g' := foldStep_total ord g _
 
 /-- `RENAME x TO y` removes `x` -/
 theorem rename_removes_old (g g' : LGraph) (x y : String) (hxy : x ≠ y)
@@ -656,19 +656,14 @@ theorem rename_removes_old (g g' : LGraph) (x y : String) (hxy : x ≠ y)
   obtain ⟨_, _, hd, hr⟩ := rename_holder x y
   have hne : tn x ≠ tn y := fun h => hxy (tn_inj h)
   simp only [foldStep, hd, hr, List.isEmpty_nil, Bool.not_true, List.isEmpty_cons, Bool.not_false, if_true, id,
-    renameStep, renameOne, Bool.false_eq_true, if_false] at h
-  cases hre : (((g.compose (holderOf (.rename [(x, y)]))).relabel (tn x) (tn y)).removeEdge? (tn y) (tn y)) with
-  | none => rw [hre] at h; simp at h
-  | some g2 =>
-    rw [hre] at h
-    simp only [Except.ok.injEq] at h
-    have h2 : tn x ∉ g2.nodes := by
-      rw [mem_nodes_removeEdge _ _ _ _ hre]
-      exact old_not_mem_relabel _ _ _ _ hne
-    subst h
-    split
-    · rw [mem_nodes_removeNode]; exact fun hh => h2 hh.1
-    · exact h2
+    renamesInOrder, sortPairs, insertPair, List.map_cons, List.map_nil, List.foldl_cons, List.foldl_nil,
+    renameStep, renameOne, Bool.false_eq_true, if_false, Except.ok.injEq] at h
+  subst h
+  have h2 : tn x ∉ ((removeEdges (g.compose (holderOf (.rename [(x, y)]))) [(tn x, tn y)]).relabel (tn x) (tn y)).nodes :=
+    old_not_mem_relabel _ _ _ _ hne
+  split
+  · rw [mem_nodes_removeNode]; exact fun hh => h2 hh.1
+  · exact h2
 
 /-- the RENAME hypothesis of the property is not idle: relabelling lets the freshly composed, attribute‑less node `y`
     overwrite `x`'s attribute dict, so a table that was only ever *read* (SOURCE_ONLY tag) loses its role when
@@ -679,12 +674,22 @@ theorem rename_loses_tags_witness :
       | .ok g => (sourceTables g ++ targetTables g ++ intermediateTables g).length | _ => 99) = 0 := by
   decide
 
-/-- D10 witness: with two pairs the outcome depends on the order in which the pair *set* is iterated — one order
-    raises `NetworkXError` (internal), the other returns normally. -/
-theorem dev_D10 :
+/-- D10 repaired (commit recorded in known_findings.json): the two‑pair statement that used to raise `NetworkXError` under one
+    iteration order of the pair set and to succeed under the other now gives the same graph under both — the pairs are
+    sorted by the `index` of their edges before they are applied, on a graph without the statement's RENAME edges. -/
+theorem fixed_D10 :
     let hs := [holderOf (.rename [("b", "a"), ("c", "b")])]
-    (match Assemble.buildWith id Prov.none hs with | .error (.internal _) => true | _ => false) = true ∧
-    (match Assemble.buildWith List.reverse Prov.none hs with | .ok _ => true | _ => false) = true := by
+    (match Assemble.buildWith id Prov.none hs, Assemble.buildWith List.reverse Prov.none hs with
+      | .ok g, .ok g' => decide (g.nodes = g'.nodes ∧ g.edges = g'.edges)
+      | _, _ => false) = true := by
+  decide
+
+/-- a swap through a temporary name, in one statement: `insert into a select … from s; rename a to tmp, b to a, tmp to b` —
+    the pairs are applied in STATEMENT order, so what was `a` ends up as `b` -/
+theorem rename_swap_witness :
+    (match AStmt.build [.rw ["s"] (some "a"), .rename [("a", "tmp"), ("b", "a"), ("tmp", "b")]] with
+      | .ok g => ((sourceTables g).map (fun n => decide (n = tn "s")), (targetTables g).map (fun n => decide (n = tn "b")))
+      | _ => ([], [])) = ([true], [true]) := by
   decide
 
 /-! ### non‑vacuity -/
